@@ -6,9 +6,9 @@ import common as C
 from gen import matchers as G
 
 PROPERTY = "C16"
-LEAN_MODULES = ["LccModel.Props.C16"]
-PROPS_FILES = ["LccModel/Props/C16.lean"]
-NAMESPACES = {"LccModel/Props/C16.lean": "LccModel.C16"}
+LEAN_MODULES = ["LccModel.Props.C16", "LccModel.Props.C16Keys"]
+PROPS_FILES = ["LccModel/Props/C16.lean", "LccModel/Props/C16Keys.lean"]
+NAMESPACES = {"LccModel/Props/C16.lean": "LccModel.C16", "LccModel/Props/C16Keys.lean": "LccModel.C16Keys"}
 DRIVER = "drivers/C16.lean"
 TRUSTED_BASE = [
     "Lean 4.33.0 kernel; axioms of the property theorems ⊆ {propext, Classical.choice, Quot.sound}",
@@ -17,7 +17,10 @@ TRUSTED_BASE = [
     "correspondence harness harness/props/c16.py + harness/gen/matchers.py: every generated expression is built with the "
     "real public constructors and run on the real matches()/check_that/require_that/assert_that inside a real session",
     "CPython's own operators on the value domain are what the reference evaluator (oracle) and the model's pyEq/pyCmp/pyIn are "
-    "compared with; the value domain excludes NaN/inf/-0.0, non-half-integer floats, tuples, non-str dict keys",
+    "compared with; the value domain excludes NaN/inf/-0.0, non-half-integer floats, tuples, dict keys that json.dumps rejects "
+    "(dict keys are None / bool / int / float / str, mixed within one dict)",
+    "the finite table of how the real helpers.text.jsonify renders dicts with two keys of any two key types is re-extracted on "
+    "every run and re-proved against the model (Generated/C16TablesCheck.lean)",
 ]
 ASSUMPTIONS = [
     "fixes/D4-format-result-details-empty.diff and fixes/D12-D13-not-description-shared-transformer.diff are applied to the code "
@@ -25,7 +28,8 @@ ASSUMPTIONS = [
     "DISPLAY_DETAILS_WHEN_EQUAL keeps its default (True)",
     "match_pattern / is_text / is_json and check_that_in & co. are outside the modelled constructor set",
 ]
-RULE = ("matcher expression built from the public constructors (depth <= 4) applied to a value of the mixed domain; non-trivial = "
+RULE = ("matcher expression built from the public constructors (depth <= 4) applied to a value of the mixed domain (incl. dicts whose "
+        "keys are of mixed types, as actual and as expected value, at any depth); non-trivial = "
         "expression of nesting depth >= 2; distinct = hash of (expression, value[, operation, hint, quiet])")
 EXPLANATION = ("Theorems for all matcher trees and all values (LccModel.C16.*) proved in Lean by structural induction; the model is "
                "tied to matching/* by evaluating every generated expression with the real code and comparing success flag, details "
@@ -40,6 +44,11 @@ def _result_obs(fn):
         return {"error": type(e).__name__}
     ok = r.is_successful
     return {"ok": ok if isinstance(ok, bool) else repr(ok), "details": r.description if r.description is None or isinstance(r.description, str) else repr(r.description)}
+
+
+# dicts whose keys are of mixed types ({1: "one", "two": 2}, {None: 0, "x": 1}): valid Python / JSON-serialisable data
+_MX = ["d", [[["i", 1], ["s", "one"]], ["two", ["i", 2]]]]
+_NX = ["d", [[None, ["i", 0]], ["x", ["i", 1]]]]
 
 
 class Match(C.Stream):
@@ -81,6 +90,26 @@ class Match(C.Stream):
         {"expr": ["has_length", ["val", ["i", 2]]], "value": ["i", 2]},
         {"expr": ["is_in", [["i", 1], ["s", "a"]]], "value": True},
         {"expr": ["equal_to", ["d", [["a", ["i", 1]], ["b", ["l", []]]]]], "value": ["d", [["b", ["l", []]], ["a", True]]]},
+        # dict keys of mixed types, as actual and as expected value, through the value / type / composite / collection matchers
+        # (minimised failing inputs of seeded/C16-4: a rendering that compares keys raises instead of computing the boolean)
+        {"expr": ["equal_to", _MX], "value": _MX},
+        {"expr": ["equal_to", _MX], "value": ["d", [["two", ["i", 2]], [True, ["s", "one"]]]]},      # {1: x} == {True: x}
+        {"expr": ["equal_to", ["d", [["1", ["s", "one"]], ["two", ["i", 2]]]]], "value": _MX},     # … but 1 is not "1"
+        {"expr": ["not_equal_to", _NX], "value": _MX},
+        {"expr": ["is_type_any", "dict"], "value": _NX},
+        {"expr": ["is_type_any", "list"], "value": _MX},
+        {"expr": ["not_", ["val", _MX]], "value": _NX},
+        {"expr": ["any_of", [["val", _MX], ["is_none"]]], "value": _NX},
+        {"expr": ["all_of", [["is_type_any", "dict"], ["val", _NX]]], "value": _MX},
+        {"expr": ["has_entry", ["a", 1], ["val", ["s", "one"]]], "value": ["d", [["a", _MX]]]},      # d["a"][1] through an int key
+        {"expr": ["has_key", [1]], "value": ["d", [[True, None], ["k", None]]]},                     # d[1] finds the key True
+        {"expr": ["is_in", [_MX, ["i", 1]]], "value": _NX},
+        {"expr": ["has_items", [_MX]], "value": ["l", [_NX, _MX]]},
+        {"expr": ["has_items", [["i", 1], None, ["s", "1"]]], "value": _MX},                          # `1 in d`, `None in d`, `"1" in d`
+        {"expr": ["has_only_items", [["s", "two"], True]], "value": _MX},                             # iteration yields the keys; 1 == True
+        {"expr": ["has_item", ["has_key", [1]]], "value": ["l", [_NX, _MX]]},
+        {"expr": ["has_length", ["val", ["i", 2]]], "value": _NX},
+        {"expr": ["greater_than", _MX], "value": _NX},                                                # dicts are unorderable: TypeError
     ]
 
     def gen(self, rng, i):
@@ -139,6 +168,11 @@ class Match(C.Stream):
         f += ["c:" + c for c in sorted(G.constructors_of(case["expr"]))]
         v = case["value"]
         f.append("v:" + ("None" if v is None else "bool" if isinstance(v, bool) else v[0]))
+        ka, ke = G.key_feature([v]), G.key_feature(G.literals_of(case["expr"]))
+        if ka:
+            f.append("actual-dict-keys:" + ka)
+        if ke:
+            f.append("expected-dict-keys:" + ke)
         return f
 
     def shrink(self, case):
@@ -205,6 +239,11 @@ class Ops(C.Stream):
         # hidden details, details of has_all_items (None) …
         {"ops": [{"op": "check", "expr": ["hide", ["equal_to", ["i", 1]]], "value": ["i", 2], "hint": None, "quiet": False},
                  {"op": "check", "expr": ["has_all_items", ["is_type_any", "int"]], "value": ["l", [["i", 1]]], "hint": "l", "quiet": False}]},
+        # dicts with keys of mixed types as expected and actual value: one check / AbortTest exactly as for any other operand
+        {"ops": [{"op": o, "expr": ["equal_to", _MX], "value": v, "hint": "x", "quiet": False}
+                 for o in ("check", "require", "assert") for v in (_MX, _NX)]},
+        {"ops": [{"op": o, "expr": ["has_entry", ["k"], ["is_type", "dict", ["not_equal_to", _NX]]], "value": ["d", [["k", v]]],
+                  "hint": None, "quiet": q} for o in ("check", "assert") for v in (_MX, _NX) for q in (False, True)]},
     ]
 
     def gen(self, rng, i):
@@ -270,7 +309,13 @@ class Ops(C.Stream):
             direct, checks, result = st["direct"], st["checks"], st["result"]
             raised = result.get("raised")
             if "error" in direct:
-                continue    # the matcher itself raised: no match result exists, the contract says nothing
+                # the matcher itself raised: no match result exists and the contract says nothing — unless Python's own
+                # operators compute a truth value for this operand: then the matcher had to return a result
+                ref = G.ref_eval(o["expr"], G.to_py(o["value"]))
+                if isinstance(ref, bool):
+                    fails.append(C.Failure(f"C16/ops/{name}/matcher-raises-{direct['error']}",
+                                           f"op {k}: matches() raised {direct['error']} although Python's operators give {ref}"))
+                continue
             ok = direct["ok"]
             if raised not in (None, "AbortTest"):
                 fails.append(C.Failure(f"C16/ops/{name}/raises-{raised}",
@@ -333,6 +378,9 @@ class Ops(C.Stream):
             for c in st["checks"]:
                 if "details" in c:
                     f.append("recorded-details:" + ("none" if c["details"] is None else "empty" if c["details"] == "" else "text"))
+            k = G.key_feature([o["value"]] + G.literals_of(o["expr"]))
+            if k:
+                f.append(f"{o['op']}:dict-keys:{k}")
         return sorted(set(f))
 
     def shrink(self, case):
@@ -347,3 +395,43 @@ class Ops(C.Stream):
 
 def streams(ctx):
     return [Match(), Ops()]
+
+
+# ----------------------------------------------------------------------------------------------
+# decision table extracted by executing the real function on a finite domain: how helpers.text.jsonify (the
+# rendering every matcher uses for expected / actual values) writes a dict whose two keys are of any two key types
+# ----------------------------------------------------------------------------------------------
+
+TABLE_OPENS = ("LccModel.Matcher",)
+TABLE_KEYS = [None, True, False, ["i", 0], ["i", 1], ["i", -1], ["i", 10 ** 20], ["f", 3], ["f", -1], ["f", 2], "a", "1", "", "null",
+              'q"k', "é"]
+
+
+def _lean_key(k):
+    if isinstance(k, str):
+        return "DKey.str [%s]" % ", ".join("Char.ofNat %d" % ord(c) for c in k)
+    if k is None:
+        return "DKey.none"
+    if isinstance(k, bool):
+        return "DKey.bool %s" % ("true" if k else "false")
+    n = "Int.ofNat %d" % k[1] if k[1] >= 0 else "Int.negSucc %d" % (-k[1] - 1)     # no `-1` literal: `Neg` instances stall the elaboration of a long list
+    return "DKey.%s (%s)" % ("int" if k[0] == "i" else "float", n)
+
+
+def tables(ctx):
+    from lemoncheesecake.helpers.text import jsonify
+    rows = []
+    for k1 in TABLE_KEYS:
+        for k2 in TABLE_KEYS:
+            p1, p2 = G.key_to_py(k1), G.key_to_py(k2)
+            if p1 == p2 and k1 is not k2:
+                continue            # True / 1 / 1.0 are one key of a Python dict
+            ks = [k1] if k1 is k2 else [k1, k2]
+            d = {G.key_to_py(k): i for i, k in enumerate(ks)}
+            try:
+                out = jsonify(d)
+                lean_out = "some [%s]" % ", ".join(str(ord(c)) for c in out)
+            except Exception as e:  # noqa: BLE001 - the table records that the real function raised
+                out, lean_out = "raises " + type(e).__name__, "none"
+            rows.append(("[%s]" % ", ".join(_lean_key(k) for k in ks), lean_out, "jsonify(%r) = %s" % (d, out)))
+    return [C.Table("jsonifyKeysTable", "List (List DKey × Option (List Nat))", rows, ("LccModel.Model.Matcher",))]
